@@ -14,10 +14,14 @@
    - panics are exactly usize overflow/underflow (excluded for consistent bounded traces) and
      the known finding lock_fee_event_expect (max_event_size below the LockFeeEvent payload).
    Which kernel events fire in a real transaction (the event list of a program) is outside the
-   model: it is tied by the correspondence harness on real transactions. Also outside the model:
-   how a limit error travels to the receipt (known finding limit_error_masked_by_type_check: a
-   limit error raised during payload validation is reported as a TypeCheckError; the transaction
-   still fails). *)
+   model: it is tied by the correspondence harness on real transactions.
+   How a limit error reaches the receipt (`surface` in the model): normally as
+   SystemModuleError(TransactionLimitsError e); when the exceeding IO access happens while a blueprint
+   payload is validated against its schema, validate_blueprint_payload reports it as
+   SystemError(TypeCheckError(BlueprintPayloadValidationError(.., text containing e))).  The
+   transaction is failed in both cases, which is all the property statement asks ("a transaction
+   that would exceed any of them fails"), so this is not a finding; the correspondence compares the
+   limit error e itself in both forms (CBoundary in Corr/C49_run.v). *)
 From Coq Require Import List NArith Bool Lia.
 Import ListNotations.
 Require Import RV.Model.C49_Limits RV.Proof.C49_Limits RV.Gen.C49_limits.
